@@ -209,7 +209,7 @@ func (a *Act) frameAt(ex exitPt, ei int, env *Env) {
 	}
 	sort.Strings(hvs)
 	for _, hv := range hvs {
-		if whole[hv] || strings.HasPrefix(hv, "ITER") || hv == "$wm" || g.w.scratch[hv] {
+		if whole[hv] || strings.HasPrefix(hv, "ITER") || hv == "$wm" || g.w.scratch[hv] || strings.HasSuffix(hv, "_init_guard") {
 			continue
 		}
 		cur := ex.st[hv]
